@@ -605,7 +605,7 @@ impl xs::verif::Controller for SimCtrl {
 
     fn new_id(&self) -> Option<Scru128Id> {
         let mut g = self.lock();
-        if g.active {
+        if g.active && g.knobs.get("ids.real").copied().unwrap_or(0) == 0 {
             let now = g.now_ms;
             Some(g.idgen.generate_or_reset_core(now, 10_000))
         } else {
